@@ -14,7 +14,7 @@ import json, os, re, subprocess, sys
 
 REPO = os.environ.get("VERIF_REPO", "/repo")
 VERIF = os.path.dirname(os.path.dirname(os.path.abspath(__file__)))
-OUT = os.path.join(VERIF, "out", "overlay")
+OUT = os.path.join(os.environ.get("VERIF_OUTDIR", os.path.join(VERIF, "out")), "overlay")
 GOROOT = os.environ.get("VERIF_GOROOT", "/opt/veriftools/go1.26.8")
 
 
